@@ -207,9 +207,64 @@ fn run_history_here(
             }
         }
         None => {
-            for _ in 0..n_ops {
+            // c09hist, every other run: a CA with two parents and a child
+            // that holds a class under each of that CA's classes; somewhere
+            // in the history the child loses all of it at once (several
+            // follow-ups of one command for the same CA and parent).
+            let scripted = profile.name == "c09hist" && seed % 2 == 0;
+            let drop_at = if scripted { runner.rng.usize(n_ops) } else { n_ops };
+            if scripted {
+                use crate::model::Res;
+                for op in [
+                    Op::CreateCa {
+                        inst: 0, name: "p2".into(), parent_inst: 0,
+                        parent: "testbed".into(),
+                        res: Res { v4: 0x000f, v6: 0x03, asn: 0x03 },
+                    },
+                    Op::AddParent {
+                        inst: 0, name: "p2".into(), parent_inst: 0,
+                        parent: "ta".into(),
+                        res: Res { v4: 0x00f0, v6: 0x0c, asn: 0x0c },
+                    },
+                    Op::Pump,
+                    Op::CreateCa {
+                        inst: 0, name: "k2".into(), parent_inst: 0,
+                        parent: "p2".into(),
+                        res: Res { v4: 0x0033, v6: 0x05, asn: 0x05 },
+                    },
+                    Op::Pump,
+                ] {
+                    if runner.dead.is_some() {
+                        break
+                    }
+                    let _ = runner.views();
+                    runner.exec(&op);
+                    crate::oracles::after_op(&mut runner);
+                }
+            }
+            for i in 0..n_ops {
                 if runner.dead.is_some() {
                     break
+                }
+                if scripted && i == drop_at
+                    && runner.model.ca(0, "p2").map(|p| {
+                        p.children.contains_key("k2")
+                    }).unwrap_or(false)
+                {
+                    for op in [
+                        Op::ChildResources {
+                            inst: 0, parent: "p2".into(), child: "k2".into(),
+                            res: crate::model::Res::NONE,
+                        },
+                        Op::Pump,
+                    ] {
+                        let _ = runner.views();
+                        runner.exec(&op);
+                        crate::oracles::after_op(&mut runner);
+                    }
+                    if runner.dead.is_some() {
+                        break
+                    }
                 }
                 let op = runner.next_op();
                 runner.exec(&op);
